@@ -36,6 +36,8 @@ type world struct {
 	// honest: every batch in this case comes from real state machines (pipe-*); provider tables must then never
 	// be erased while the pool holds funds
 	honest bool
+	// tag is appended to the escrow oracle's signature in families that aim at one mechanism (e.g. ":close-overflow")
+	tag string
 }
 
 func (w *world) close() {
@@ -74,17 +76,12 @@ func (w *world) oracle(env string, before, after *Snapshot, op string, minted *b
 	if w.noOracle {
 		return
 	}
-	// conservation: these operations only move tokens
-	want := new(big.Int).Add(before.Total(), minted)
-	if after.Total().Cmp(want) != 0 {
-		w.o.Fail("C20:tokens-not-conserved", fmt.Sprintf("env %s op %q: total %s -> %s (minted %s)", env, op, before.Total(), after.Total(), minted), w.replay())
-	}
 	for _, c := range w.chains {
 		// escrow pool = Σ open sell orders of the chain
 		sum, _ := after.openOrders(c)
 		esc := new(big.Int).SetUint64(after.pool(c + escrowAdd).Amount)
 		if esc.Cmp(sum) != 0 {
-			w.o.Fail("C20:escrow-ne-open-orders", fmt.Sprintf("env %s chain %d after %q: escrow pool %s, open orders %s", env, c, op, esc, sum), w.replay())
+			w.o.Fail("C20:escrow-ne-open-orders"+w.tag, fmt.Sprintf("env %s chain %d after %q: escrow pool %s, open orders %s", env, c, op, esc, sum), w.replay())
 		}
 		// holding pool = Σ pending DEX orders and deposits (next ∪ locked)
 		hold := new(big.Int).SetUint64(after.pool(c + holdingAdd).Amount)
@@ -103,6 +100,11 @@ func (w *world) oracle(env string, before, after *Snapshot, op string, minted *b
 		if ps.Cmp(new(big.Int).SetUint64(lp.TotalPoolPoints)) != 0 {
 			w.o.Fail("C20:points-sum-ne-total", fmt.Sprintf("env %s chain %d after %q: Σ points %s, total %d", env, c, op, ps, lp.TotalPoolPoints), w.replay())
 		}
+	}
+	// conservation (exact integers; the sum may exceed 2^64 in boundary cases, nothing here wraps): these operations only move tokens
+	want := new(big.Int).Add(before.Total(), minted)
+	if after.Total().Cmp(want) != 0 {
+		w.o.Fail("C20:tokens-not-conserved", fmt.Sprintf("env %s op %q: total %s -> %s (minted %s)", env, op, before.Total(), after.Total(), minted), w.replay())
 	}
 }
 
@@ -435,6 +437,70 @@ func newWorld(o *drv.Out, id string) *world {
 	return w
 }
 
+// closeOverflowCase: CloseOrder runs inside HandleCommitteeSwaps, which swallows errors and never rolls back, so its
+// up-front check `buyer balance > MaxUint64 - AmountForSale` is the only thing that keeps a close atomic. The family
+// puts the buyer's balance on every boundary of that check — and on the boundaries one would get by comparing with
+// RequestedAmount instead — for orders with AmountForSale above, below and equal to RequestedAmount, repeats the close
+// instruction (inside one certificate and in a later one), and then lets another seller of the same chain delete
+// his order (which needs the escrow that backs it to be still there).
+func (w *world) closeOverflowCase(k int) {
+	w.tag = ":close-overflow"
+	w.chains = []uint64{2}
+	const max = ^uint64(0)
+	pairs := [][2]uint64{{1000, 10}, {10, 1000}, {500, 500}, {uint64(2 + w.r.Intn(100000)), uint64(1 + w.r.Intn(100000))}, {1 << 40, 3}}
+	pr := pairs[k%len(pairs)]
+	a, rq := pr[0], pr[1]
+	var bal uint64
+	switch (k / len(pairs)) % 9 {
+	case 0:
+		bal = max
+	case 1:
+		bal = max - a - 1
+	case 2:
+		bal = max - a // the largest balance the credit still fits
+	case 3:
+		bal = max - a + 1 // the smallest balance the credit overflows
+	case 4:
+		bal = max - rq - 1
+	case 5:
+		bal = max - rq
+	case 6:
+		bal = max - rq + 1
+	case 7:
+		bal = max - (a+rq)/2 // strictly between the two bounds when they differ
+	default:
+		bal = max - uint64(w.r.Int63n(int64(a+rq)+2))
+	}
+	seller, other, buyer := w.addrs[0], w.addrs[1], w.addrs[2]
+	w.initEnv("R", 1, 1, 0, 2)
+	w.fund("R", seller, a+5)
+	w.fund("R", other, 3*a+7)
+	id, id2, id3 := w.freshID(), w.freshID(), w.freshID()
+	w.create("R", 2, id, seller, a, rq, []byte{9}, nil)
+	w.create("R", 2, id2, other, a, rq+1, []byte{8}, nil)
+	w.create("R", 2, id3, other, 2*a, 1, []byte{7}, nil)
+	w.swaps("R", 2, &lib.Orders{LockOrders: []*lib.LockOrder{{OrderId: id, BuyerReceiveAddress: buyer, BuyerSendAddress: []byte{1}, BuyerChainDeadline: 9}}})
+	w.fund("R", buyer, bal) // the buyer's receive account sits on the boundary
+	before, _ := w.envs["R"].Snapshot(w.chains)
+	w.swaps("R", 2, &lib.Orders{CloseOrders: [][]byte{id}})
+	after, _ := w.envs["R"].Snapshot(w.chains)
+	_, nb := before.openOrders(2)
+	_, na := after.openOrders(2)
+	switch {
+	case nb == na && bal > max-a && bal <= max-rq:
+		w.o.Count("close-overflow:rejected-between-the-two-bounds")
+	case nb == na:
+		w.o.Count("close-overflow:rejected")
+	default:
+		w.o.Count("close-overflow:paid")
+	}
+	w.swaps("R", 2, &lib.Orders{CloseOrders: [][]byte{id, id}}) // repeated, also inside one certificate
+	w.swaps("R", 2, &lib.Orders{CloseOrders: [][]byte{id}, ResetOrders: [][]byte{id2}})
+	w.del("R", 2, id2) // the other seller's escrow must still be there
+	w.del("R", 2, id3)
+	w.del("R", 2, id) // locked (if still open): refused
+}
+
 // witnessCase runs, on the real handlers, the two points the hypotheses of escrow_eq exclude (theorems
 // escrow_breaks_on_reused_id and escrow_wraps_beyond_uint64): the model must agree with the real code there too,
 // and the real state must show exactly the predicted breakage.
@@ -535,6 +601,15 @@ func Run(o *drv.Out) {
 	for i := 0; i < nCap; i++ {
 		w := newWorld(o, fmt.Sprintf("capped-%d", i))
 		w.cappedCase(12)
+		w.close()
+	}
+	nClose := 45
+	if o.Tier == "thorough" {
+		nClose = 180
+	}
+	for i := 0; i < nClose; i++ {
+		w := newWorld(o, fmt.Sprintf("closeovf-%d", i))
+		w.closeOverflowCase(i)
 		w.close()
 	}
 	nSame := 2
